@@ -185,13 +185,13 @@ def main():
         if pid in CHECKS:
             continue
         na.append({"property_id": pid, "reason": NOT_YET.get(pid, "check under construction in this build session (runtime monitoring applies; see DESIGN.md §3); not claimed until its monitor is silent on the unchanged tree")})
-    hooks_commits = []
+    hooks_commits = ["12c04c2fa9e6205fb4fde02420c5642da2fa3750"]
     man = {
         "version": 1,
         "setup_cmd": "./check build",
         "hooks": {
             "guard": "verif",
-            "enable": "go build -tags verif (no hook is currently needed: every observation point is reachable from outside; the harness module path github.com/junioryono/godi/v4/verifh + replace => /repo gives access to internal/graph and internal/reflection)",
+            "enable": "go build -tags verif (what ./check does): godi then calls verifYield(point) at 19 places between its critical sections in scope.go / provider.go (never with a lock held) and exports SetVerifHook; harness/rt/yield_verif.go routes the points to the running case (Where = \"yield:<point>\": gates of the controlled schedules can park an operation at an internal point) and to an optional schedule perturbation (SetNoise). Without the tag verifYield is an empty function (verif_hooks_off.go) and SetVerifHook does not exist",
             "baseline_off_cmd": BASELINE_OFF,
             "source_commits": hooks_commits,
             "add_only": True,
